@@ -1,176 +1,164 @@
-(* C16 -- audited statements (every Theorem/Corollary here is checked with Print Assumptions). *)
+(* C16 -- audited statements (every Theorem/Corollary here is checked with Print Assumptions).
+   Proofs: Rows/C16Final.v and the files it imports. *)
 From Coq Require Import ZArith NArith List Bool.
 Import ListNotations.
 Require Import PPLV.gen.Facts_COTree PPLV.Rows.COTree PPLV.Rows.COTreeSpec.
 Require Import PPLV.Rows.Abs PPLV.Rows.Dense PPLV.Rows.Sparse PPLV.Rows.Expr PPLV.Rows.RowsFacts.
 Require PPLV.Rows.DenseProofs PPLV.Rows.SparseProofs PPLV.Rows.ExprProofs.
 Require PPLV.Rows.COTreeBase PPLV.Rows.COTreeSearch PPLV.Rows.COTreeStatic PPLV.Rows.COTreeHint PPLV.Rows.COTreeDens.
-Require PPLV.Rows.COTreeIter PPLV.Rows.COTreeUpdate PPLV.Rows.COTreeMain.
+Require PPLV.Rows.COTreeIter PPLV.Rows.COTreeUpdate PPLV.Rows.COTreeMain PPLV.Rows.COTreeEraseLb PPLV.Rows.COTreeFull.
+Require PPLV.Rows.C16Final.
 
 (* unstored entries of a sparse row read as zero *)
 Theorem unstored_reads_zero : forall s i, s_mem i (sents s) = false -> s_get i s = 0%Z.
-Proof. exact unstored_reads_zero_s. Qed.
+Proof. exact C16Final.unstored_reads_zero_stmt. Qed.
 
 (* The faithful model (like the code) is NOT representation independent on two mixed operations:
    findings C16-lax-mixed and C16-trunc-copy. *)
 Theorem lax_mixed_refuted : exists rho h, unsafe rho h = true /\ outputs rho h <> outputs (fun _ => false) h.
-Proof. exists reg0_sparse, lax_witness. split; [exact lax_witness_unsafe | exact lax_mixed_refuted_l]. Qed.
+Proof. exact C16Final.lax_mixed_refuted_stmt. Qed.
 Theorem trunc_copy_refuted : exists rho h, unsafe rho h = true /\ outputs rho h <> outputs (fun _ => false) h.
-Proof. exists reg0_sparse, trunc_witness. split; [exact trunc_witness_unsafe | exact trunc_copy_refuted_l]. Qed.
+Proof. exact C16Final.trunc_copy_refuted_stmt. Qed.
 
 (* ---- rows: every mutator commutes with the abstraction to (size, nat -> Z), every observer is a
    function of the abstraction (a_uop / a_bop / a_obs1 / a_obs2 map an operation to its a_* counterpart) ---- *)
 Theorem dense_refines_abs : forall u d, uop_ok u (ED d) = true ->
   aeq (abs_e (apply_uop u (ED d))) (ExprProofs.a_uop u (abs_e (ED d))).
-Proof. exact ExprProofs.dense_refines_abs. Qed.
+Proof. exact C16Final.dense_refines_abs_stmt. Qed.
 Theorem sparse_refines_abs : forall u s, s_wf s -> s_nz s -> uop_ok u (ES s) = true ->
   (s_wf (match apply_uop u (ES s) with ES t => t | ED _ => s end) /\
    s_nz (match apply_uop u (ES s) with ES t => t | ED _ => s end)) /\
   aeq (abs_e (apply_uop u (ES s))) (ExprProofs.a_uop u (abs_e (ES s))).
-Proof. exact ExprProofs.sparse_refines_abs. Qed.
+Proof. exact C16Final.sparse_refines_abs_stmt. Qed.
 (* binary operations, all four combinations of representations (the two unsafe ones excluded) *)
 Theorem mixed_binary_refines_abs : forall b x y, SparseProofs.good x -> SparseProofs.good y ->
   bop_ok b x y = true -> bop_unsafe b x y = false ->
   SparseProofs.good (apply_bop b x y) /\ aeq (abs_e (apply_bop b x y)) (ExprProofs.a_bop b (abs_e x) (abs_e y)).
-Proof. exact ExprProofs.bop_spec_all. Qed.
+Proof. exact C16Final.mixed_binary_refines_abs_stmt. Qed.
 Theorem observers_refine_abs : forall o e, SparseProofs.good e -> apply_obs1 o e = SparseProofs.a_obs1 o (abs_e e).
-Proof. intros o e H. apply SparseProofs.obs1_refines, H. Qed.
+Proof. exact C16Final.observers_refine_abs_stmt. Qed.
 Theorem observers2_refine_abs : forall o x y, SparseProofs.good x -> SparseProofs.good y ->
   apply_obs2 o x y = SparseProofs.a_obs2 o (abs_e x) (abs_e y).
-Proof. intros o x y Hx Hy. apply SparseProofs.obs2_refines; assumption. Qed.
+Proof. exact C16Final.observers2_refine_abs_stmt. Qed.
 
 (* for every history and any two assignments of representations to the registers (mixed operands
    included) all observations are equal, provided neither run uses one of the two refuted combinations *)
 Theorem dense_sparse_interchangeable :
   forall rho1 rho2 h, unsafe rho1 h = false -> unsafe rho2 h = false -> outputs rho1 h = outputs rho2 h.
-Proof. exact ExprProofs.dense_sparse_interchangeable. Qed.
-(* the hypotheses are satisfiable by a history that mixes representations and uses binary operations *)
-Example interchangeable_hyp_sat :
-  let h := [New 0 4; New 1 4; Un 0 (USet 1 3%Z); Un 1 (USet 2 5%Z); Bin 0 1 (BCombine 2 (-3) 0 4);
-            Bin 1 0 (BLaxScale 2 0 3); Obs2 0 1 OCompare; Obs1 0 OIter] in
-  unsafe (fun r => Nat.eqb r 0) h = false /\ unsafe (fun _ => false) h = false /\ length (outputs (fun _ => false) h) = 2%nat.
-Proof. vm_compute. repeat split. Qed.
-Example sparse_refines_hyp_sat :
-  let s := mkSR 4 [(1%nat, 3%Z); (3%nat, (-2)%Z)] in s_wf s /\ s_nz s /\ uop_ok (USwap 1 2) (ES s) = true.
-Proof.
-  cbv zeta. split; [split|split].
-  - repeat constructor; cbn; auto.
-  - repeat constructor; cbn; auto.
-  - repeat constructor; cbn; discriminate.
-  - reflexivity.
-Qed.
+Proof. exact C16Final.dense_sparse_interchangeable_stmt. Qed.
 
 (* ---- the tree: searches, for ANY valid hint (stale or far away), find the map-level answer ---- *)
 Local Open Scope N_scope.
 (* every hint the histories use is valid (end() or a used slot) *)
 Theorem resolve_hint_valid : forall t raw, COTreeSearch.valid_hint t (resolve_hint t raw).
-Proof. exact COTreeSearch.resolve_hint_valid. Qed.
+Proof. exact C16Final.resolve_hint_valid_stmt. Qed.
 (* go_down_searching_key from the root ends on the key, or on its in-order neighbour with the free child *)
 Theorem go_down_spec : forall t key, inv t -> 0 < t_size t ->
   COTreeSearch.gd_post (t_arr t) (t_rsz t) key (root_search t key).
-Proof. exact COTreeSearch.go_down_spec. Qed.
+Proof. exact C16Final.go_down_spec_stmt. Qed.
 (* bisect_near / bisect_in from any valid hint end on the key or on a neighbour of it *)
 Theorem bisect_near_spec : forall t h key, inv t -> 0 < t_size t -> COTreeSearch.valid_hint t h ->
   COTreeSearch.near_pos (t_arr t) key (bisect_near t h key).
-Proof. exact COTreeSearch.bisect_near_spec. Qed.
+Proof. exact C16Final.bisect_near_spec_stmt. Qed.
 (* Sparse_Row::lower_bound(hint, i) / find(hint, i) do not depend on the hint ... *)
 Theorem lower_bound_hint_irrelevant : forall t h1 h2 i, inv t ->
   COTreeSearch.valid_hint t h1 -> COTreeSearch.valid_hint t h2 -> lower_bound_near t h1 i = lower_bound_near t h2 i.
-Proof. exact COTreeSearch.lower_bound_hint_irrelevant. Qed.
+Proof. exact C16Final.lower_bound_hint_irrelevant_stmt. Qed.
 Theorem find_hint_irrelevant : forall t h1 h2 i, inv t ->
   COTreeSearch.valid_hint t h1 -> COTreeSearch.valid_hint t h2 -> find_near t h1 i = find_near t h2 i.
-Proof. exact COTreeSearch.find_hint_irrelevant. Qed.
+Proof. exact C16Final.find_hint_irrelevant_stmt. Qed.
 (* ... and are the map's lower bound / lookup; unstored keys read as zero *)
 Theorem lower_bound_refines : forall t i, inv t ->
   m_lower_bound i (abs_tree t) = (if lower_bound t i =? t_end t then None else aget (t_arr t) (lower_bound t i)).
-Proof. exact COTreeSearch.lower_bound_refines. Qed.
+Proof. exact C16Final.lower_bound_refines_stmt. Qed.
 Theorem get_refines : forall t i, inv t ->
   get t i = match m_find i (abs_tree t) with Some v => v | None => 0%Z end.
-Proof. exact COTreeSearch.get_refines. Qed.
+Proof. exact C16Final.get_refines_stmt. Qed.
 (* the hinted insertion IS the plain insertion, whatever the hint: same tree, same returned iterator *)
 Theorem insert_hint_eq : forall t h k d, inv t -> COTreeSearch.valid_hint t h ->
   insert_hint t h k d = match d with Some v => insert t k v | None => insert_key t k end.
-Proof. exact COTreeHint.insert_hint_eq. Qed.
+Proof. exact C16Final.insert_hint_eq_stmt. Qed.
 Theorem hint_irrelevant : forall t raw1 raw2 k d, inv t ->
   insert_hint t (resolve_hint t raw1) k d = insert_hint t (resolve_hint t raw2) k d.
-Proof. exact COTreeHint.insert_hint_irrelevant. Qed.
+Proof. exact C16Final.hint_irrelevant_stmt. Qed.
 
 (* ---- non-rebalancing updates and rebuilds refine the map and keep the invariant ---- *)
 Theorem increase_keys_from_refines : forall t key n, inv t ->
   abs_tree (increase_keys_from t key n) = m_shift_up key n (abs_tree t) /\ inv (increase_keys_from t key n).
-Proof. intros t key n H. split; [apply COTreeStatic.increase_keys_from_abs|apply COTreeStatic.increase_keys_from_inv]; exact H. Qed.
+Proof. exact C16Final.increase_keys_from_refines_stmt. Qed.
 Theorem rebuild_bigger_refines : forall t, inv t -> 0 < t_size t ->
   abs_tree (rebuild_bigger t) = abs_tree t /\ inv (rebuild_bigger t).
-Proof. intros t H H0. split; [apply COTreeStatic.rebuild_bigger_abs|apply COTreeStatic.rebuild_bigger_inv; assumption]. Qed.
+Proof. exact C16Final.rebuild_bigger_refines_stmt. Qed.
 Theorem rebuild_smaller_refines : forall t d, inv t -> 0 < t_size t -> 1 <= d ->
   t_rsz t = 2 ^ N.succ (N.succ d) - 1 -> t_size t <= 2 ^ N.succ d - 1 ->
   inv (rebuild_smaller t) /\ abs_tree (rebuild_smaller t) = abs_tree t.
-Proof. exact COTreeStatic.rebuild_smaller_inv. Qed.
+Proof. exact C16Final.rebuild_smaller_refines_stmt. Qed.
 (* the iterator constructor CO_Tree(Iterator, n) (used by Sparse_Row copies and the bulk linear_combine) *)
 Theorem of_list_refines : forall l, sorted l -> abs_tree (of_list l) = l /\ inv (of_list l).
-Proof. intros l H. split; [apply COTreeStatic.of_list_abs|apply COTreeStatic.of_list_inv, H]. Qed.
+Proof. exact C16Final.of_list_refines_stmt. Qed.
 
 (* ---- insert and erase through rebalance (compact_elements_in_the_rightmost_end + redistribute_elements_in_subtree,
    rebuild_bigger / rebuild_smaller, the hole moving down in erase) refine the map and keep the invariant ---- *)
 Theorem insert_refines : forall t k v, inv t ->
   abs_tree (fst (insert t k v)) = m_insert k v (abs_tree t) /\ inv (fst (insert t k v)).
-Proof. exact COTreeUpdate.insert_refines. Qed.
+Proof. exact C16Final.insert_refines_stmt. Qed.
 Theorem insert_key_refines : forall t k, inv t ->
   abs_tree (fst (insert_key t k)) = m_insert_key k (abs_tree t) /\ inv (fst (insert_key t k)).
-Proof. exact COTreeUpdate.insert_key_refines. Qed.
+Proof. exact C16Final.insert_key_refines_stmt. Qed.
 Theorem erase_key_refines : forall t k, inv t ->
   abs_tree (fst (erase_key t k)) = m_erase k (abs_tree t) /\ inv (fst (erase_key t k)).
-Proof. exact COTreeUpdate.erase_key_refines. Qed.
+Proof. exact C16Final.erase_key_refines_stmt. Qed.
 Theorem erase_pos_refines : forall t p, inv t -> aget (t_arr t) p <> None ->
   abs_tree (fst (erase_pos t p)) = m_erase (key_at (t_arr t) p) (abs_tree t) /\ inv (fst (erase_pos t p)).
-Proof. exact COTreeUpdate.erase_pos_refines. Qed.
+Proof. exact C16Final.erase_pos_refines_stmt. Qed.
 (* iterating with operator++ from begin() to end() (resp. operator-- from end()) enumerates the map in order *)
 Theorem iteration_refines : forall t, inv t ->
   COTreeIter.iter_from (S (N.to_nat (t_rsz t))) t (t_begin t) = abs_tree t.
-Proof. exact COTreeIter.iteration_refines. Qed.
+Proof. exact C16Final.iteration_refines_stmt. Qed.
 Theorem reverse_iteration_refines : forall t, inv t -> 0 < t_size t ->
   COTreeIter.riter_from (S (N.to_nat (t_rsz t))) t (prev_pos t (t_end t)) = rev (abs_tree t).
-Proof. exact COTreeIter.reverse_iteration_refines. Qed.
+Proof. exact C16Final.reverse_iteration_refines_stmt. Qed.
+
+(* erase_element_and_shift_left = erase + decrement of the keys from the returned iterator on *)
+Theorem erase_shift_refines : forall t k, inv t ->
+  abs_tree (erase_element_and_shift_left t k) = m_erase_shift k (abs_tree t) /\ inv (erase_element_and_shift_left t k).
+Proof. exact C16Final.erase_shift_refines_stmt. Qed.
+(* the iterator erase(key) returns is the first element with a key >= key of the new tree (end() if none) *)
+Theorem erase_returns_lower_bound : forall t k, inv t ->
+  COTreeSearch.lb_pos (fst (erase_key t k)) k (snd (erase_key t k)).
+Proof. exact C16Final.erase_returns_lower_bound_stmt. Qed.
 
 (* ---- whole histories: after ANY sequence of insert(key,data) / insert(key) / insert(itr,key[,data]) with
-   arbitrary hints / erase(key) / erase(itr) / increase_keys_from, the used slots in array (= in-order) order
-   are the ordered map, keys strictly increase, markers/size/capacity are consistent and the density bounds of
-   CO_Tree::OK() hold.  (erase_element_and_shift_left is the one operation not covered here: see the _full
-   statements below.) ---- *)
-Theorem cotree_refines_map_partial : forall ops, forallb COTreeMain.no_erase_shift ops = true ->
-  abs_tree (run_tree ops) = run_map ops /\ inv_full (run_tree ops).
-Proof. exact COTreeMain.cotree_refines_map_basic. Qed.
-Example cotree_partial_hyp_sat :
-  forallb COTreeMain.no_erase_shift
-    [OpInsert 5 1%Z; OpInsertHint 77 3 (Some 2%Z); OpInsertKey 9; OpErase 5; OpErasePos 1; OpShiftUp 3 4] = true.
-Proof. reflexivity. Qed.
+   arbitrary hints / erase(key) / erase(itr) / increase_keys_from / erase_element_and_shift_left, the used slots
+   in array (= in-order) order are the ordered map ... ---- *)
+Theorem cotree_refines_map : forall ops, abs_tree (run_tree ops) = run_map ops.
+Proof. exact C16Final.cotree_refines_map_stmt. Qed.
+(* ... and the invariant holds: slots within 1..reserved_size, an unused node has an unused subtree, keys strictly
+   increasing in array order, size_ = number of used slots, reserved_size = 2^max_depth - 1 (or the empty tree),
+   and the density bounds that CO_Tree::OK() checks *)
+Theorem cotree_inv : forall ops, inv_full (run_tree ops).
+Proof. exact C16Final.cotree_inv_stmt. Qed.
+(* in every reachable state hinted insertion and hinted searches do not depend on the hint *)
+Theorem hint_irrelevant_reachable : forall ops raw1 raw2 k d,
+  let t := run_tree ops in
+  insert_hint t (resolve_hint t raw1) k d = insert_hint t (resolve_hint t raw2) k d.
+Proof. exact C16Final.hint_irrelevant_reachable_stmt. Qed.
+Theorem lookup_hint_irrelevant_reachable : forall ops raw1 raw2 i,
+  let t := run_tree ops in
+  lower_bound_near t (resolve_hint t raw1) i = lower_bound_near t (resolve_hint t raw2) i /\
+  find_near t (resolve_hint t raw1) i = find_near t (resolve_hint t raw2) i.
+Proof. exact C16Final.lookup_hint_irrelevant_reachable_stmt. Qed.
 
 (* ---- densities: what CO_Tree::OK() adds to structure_OK(), preserved by every update
    (szinv2 follows from inv: COTreeDens.inv_szinv2) ---- *)
 Theorem insert_dens : forall t k v, inv t -> dens t -> dens (fst (insert t k v)).
-Proof. intros t k v Hi Hd. apply COTreeDens.insert_dens; [apply COTreeDens.szinv2_szinv, COTreeDens.inv_szinv2, Hi|exact Hd]. Qed.
+Proof. exact C16Final.insert_dens_stmt. Qed.
 Theorem insert_hint_dens : forall t h k d, inv t -> dens t -> dens (fst (insert_hint t h k d)).
-Proof. intros t h k d Hi Hd. apply COTreeDens.insert_hint_dens; [apply COTreeDens.szinv2_szinv, COTreeDens.inv_szinv2, Hi|exact Hd]. Qed.
+Proof. exact C16Final.insert_hint_dens_stmt. Qed.
 Theorem erase_key_dens : forall t k, inv t -> dens t -> dens (fst (erase_key t k)).
-Proof. intros t k Hi Hd. apply COTreeDens.erase_key_dens; [apply COTreeDens.inv_szinv2, Hi|exact Hd]. Qed.
+Proof. exact C16Final.erase_key_dens_stmt. Qed.
 Theorem erase_shift_dens : forall t k, inv t -> dens t -> dens (erase_element_and_shift_left t k).
-Proof. intros t k Hi Hd. apply COTreeDens.erase_shift_dens; [apply COTreeDens.inv_szinv2, Hi|exact Hd]. Qed.
+Proof. exact C16Final.erase_shift_dens_stmt. Qed.
 Local Close Scope N_scope.
 
-(* the hypotheses `inv t`, `0 < t_size t`, `dens t` are satisfiable (and hold initially) *)
-Example inv_hyp_sat :
-  inv empty_tree /\ dens empty_tree /\
-  let t := of_list [(1%N, 2%Z); (5%N, 3%Z); (9%N, (-4)%Z)] in inv t /\ (0 < t_size t)%N /\ dens t.
-Proof.
-  split; [exact COTreeStatic.inv_empty_tree|]. split; [left; reflexivity|]. cbv zeta. split.
-  - apply COTreeStatic.of_list_inv. repeat constructor; cbn; reflexivity.
-  - split; [vm_compute; reflexivity|]. right. split; [right|left]; vm_compute; reflexivity.
-Qed.
 
-(* ---- full statements (stated; see the theorems above/below for the parts that are proved) ---- *)
-Definition cotree_refines_map_full : Prop := forall ops, abs_tree (run_tree ops) = run_map ops.
-Definition cotree_inv_full : Prop := forall ops, inv_full (run_tree ops).
-Definition hint_irrelevant_full : Prop :=
-  forall ops raw1 raw2 k d,
-    let t := run_tree ops in
-    fst (insert_hint t (resolve_hint t raw1) k d) = fst (insert_hint t (resolve_hint t raw2) k d).
